@@ -88,20 +88,26 @@ CLAIMED = {
          "ByteBuffer (C09). Real sockets are covered by C02, not here."),
    technique="Coq refinement proof (decoder = pure parser; induction over transport segmentations; round-trip law); differential correspondence + extracted oracle"),
  "C06": dict(
-   text=("Coq theorems (4, closed): over ANY segmentation of the inbound bytes by the transport (any chunking, cuts inside "
+   text=("Coq theorems (6, closed): over ANY segmentation of the inbound bytes by the transport (any chunking, cuts inside "
          "headers, would-block, EOF, errors, bytes left over in the read buffer) ReadNext/AsyncReadNext with the frame "
          "codec deliver a frame iff it is byte-for-byte the next frame of the stream and otherwise lose nothing "
          "(induction over the transport queue, on top of C07's decoder refinement); the blocking and asynchronous paths "
-         "deliver the same frame; message reassembly step lemmas (controls go to the callback and leave the message "
-         "untouched; fragments are appended in order, type of the first frame, reported length = payload length). The "
-         "whole-stream model is compared with the real Stream after every call on conforming sessions split at every "
-         "1-/2-cut of short streams and random chunkings, for NextFrame, AsyncNextFrame, NextMessage, AsyncNextMessage, "
-         "with length classes up to 65535/65536/max; the extracted RFC session oracle re-derives frames and messages "
-         "from the raw inbound bytes independently. PARTIAL: the end-to-end statement 'for all conforming message "
-         "sequences the message API returns exactly those messages' is proved per frame step, not as one induction over "
-         "whole message sequences."),
+         "deliver the same frame; WHOLE MESSAGES (Proofs/WsMessageProofs.v): for every conforming message (first fragment, "
+         "continuations, FIN on the last, valid Ping/Pong frames anywhere between; any number of fragments, any sizes "
+         "within buffer and maximum) NextMessage/AsyncNextMessage deliver the control callbacks in order and exactly one "
+         "message = concatenation of the fragment payloads with the first fragment's type, and leave the stream right "
+         "behind the final fragment - when the bytes are there in any pieces, and (asynchronous API) when they arrive "
+         "later in ANY pieces with the read parked in between (induction over the pieces and over the frames complete "
+         "so far; completeness of the read loop; the model's loop fuel is proved sufficient); plus the per-frame "
+         "reassembly lemmas. The whole-stream model is compared with the real Stream after every call on conforming "
+         "sessions split at every 1-/2-cut of short streams and random chunkings, for NextFrame, AsyncNextFrame, "
+         "NextMessage, AsyncNextMessage, with length classes up to 65535/65536/max; the extracted RFC session oracle "
+         "re-derives frames and messages from the raw inbound bytes independently. Not proved: sequences of several "
+         "messages as one statement (each message starts from a state satisfying the same premises, which the theorem "
+         "re-establishes), and the blocking API on a transport that would block mid-message (it reports the error; "
+         "compared, not proved)."),
    note="Trusted: Coq kernel, translator (constants, opcode predicates, ValidCloseCode), extraction, harness incl. the in-memory transport and the VerifAttach hook (client role after the handshake). Masking keys are an environment input taken from the implementation's wire. UTF-8 validation of text payloads (off by default), the server role and TLS are not modelled. Real sockets and event-loop interleavings are C17's/C01's subject.",
-   technique="Coq proof (induction over transport segmentations, decoder refinement) + step lemmas; differential correspondence + extracted RFC session oracle"),
+   technique="Coq proof (induction over transport segmentations and over the frames of a message, decoder refinement, read-loop completeness); differential correspondence + extracted RFC session oracle"),
  "C08": dict(
    text=("Coq theorems (11, closed): for EVERY sequence (no length bound, induction over the operation list) of peer events "
          "and local calls, from the fresh stream: at most one Close frame is ever queued for the wire, nothing is queued "
